@@ -112,7 +112,7 @@ fn main() {
                             println!("unfinished thread {:?} {} last_op={}", t.name, t.state, t.last_op);
                         }
                     }
-                    let v = c.check(&sc, &out);
+                    let v = orch::check_run(c, &sc, &out);
                     println!("verdict: {:?}", v);
                     if v.violations.is_empty() { 0 } else { 1 }
                 }
